@@ -746,16 +746,17 @@ func c02RunCase(run *vk.Run, nw *c02Net, cfg c02Cfg) (out c02Outcome) {
 
 	// event script
 	attached := make(chan struct{})
-	var induced atomic.Bool // the harness has closed/failed an end or closed the bridge
+	var induced atomic.Bool     // the harness is about to close/fail an end or close the bridge
+	var inducedDone atomic.Bool // ... and that action has returned
 	var trig *c02Trigger
 	switch cfg.Script {
 	case "close":
 		e := c02Pick(S, T, cfg.End)
-		trig = &c02Trigger{at: cfg.At, fn: func() { induced.Store(true); e.cli.Close() }}
+		trig = &c02Trigger{at: cfg.At, fn: func() { induced.Store(true); e.cli.Close(); inducedDone.Store(true) }}
 	case "bridge-close":
 		// the property speaks about a tunnel whose two ends are attached: the server-side
 		// teardown is injected only after the target has been attached
-		trig = &c02Trigger{at: cfg.At, fn: func() { <-attached; induced.Store(true); bridge.Close() }}
+		trig = &c02Trigger{at: cfg.At, fn: func() { <-attached; induced.Store(true); bridge.Close(); inducedDone.Store(true) }}
 	case "err-read":
 		c02Pick(S, T, cfg.End).srv.readFailAt = cfg.At
 	case "err-write":
@@ -874,14 +875,23 @@ phaseA:
 			// logical stall verdict: both clients have handed over all their bytes, the
 			// bridge and both client readers are parked in transport reads, nothing moves
 			if induced.Load() || faultFired() {
-				if parked, sig := c02Parked(bridge); parked {
+				// only once the harness action has been carried out completely
+				if !(inducedDone.Load() || faultFired()) {
+					continue
+				}
+				if parked, sig := c02Parked(bridge, S, T); parked {
 					run.Violation("C02:closure|bridge-hang|script="+cfg.Script, detail(map[string]any{"bridge_goroutines": sig,
 						"what": "an end closed/failed but the bridge stays parked in transport reads: the tunnel is never torn down"}))
 					out.stalled = true
 					break phaseA
 				}
 			} else if writersDone() {
-				if parked, sig := c02Parked(bridge, S, T); parked {
+				undelivered := func() bool {
+					return S.got.Load() < int64(len(S.expect)) || T.got.Load() < int64(len(T.expect))
+				}
+				// (select may pick this branch although `complete` is ready too: re-check
+				// after the dumps that bytes are really missing)
+				if parked, sig := c02Parked(bridge, S, T); parked && undelivered() {
 					run.Violation("C02:stall|limit="+lc, detail(map[string]any{"goroutines": sig,
 						"what": "all bytes were handed to the tunnel, neither end closed, the bridge and both readers are parked in transport reads, yet bytes are undelivered: they never will be"}))
 					out.stalled = true
@@ -936,7 +946,7 @@ phaseA:
 					bridgeDone = true
 					break phaseB
 				case <-poll2.C:
-					if parked, sig := c02Parked(bridge); parked {
+					if parked, sig := c02Parked(bridge, S, T); parked {
 						run.Violation("C02:closure|bridge-hang|script=orderly", detail(map[string]any{"bridge_goroutines": sig, "closed_end": cfg.Closer,
 							"what": "one end closed after a complete exchange but the bridge stays parked in transport reads: the other end never observes closure"}))
 						out.stalled = true
